@@ -121,6 +121,34 @@ RULES += [_RS % e for e in ('break bond (c1,h1) modify number of radical (c1, 1)
                             'break bond (c1,h1) increase number of radical (h1) modify number of radical (c1, 0)',
                             'modify number of radical (c1, 0) break bond (c1,h1) increase number of radical (h1)',
                             'break bond (c1,h1) modify number of radical (c1, 2) increase number of radical (h1)')]
+# untyped breaks over multiple bonds (an untyped break declares a SINGLE bond), the same bond's order changed more than once,
+# every declared bond order with a modification of it
+_R2 = 'rule u%d{ reactant m{ C labeled a C labeled b %s bond to a } %s }'
+RULES += [_R2 % (i, bt, e) for i, (bt, e) in enumerate([
+    ('double', 'break bond (a,b) increase number of radical (a) increase number of radical (b)'),
+    ('triple', 'break bond (a,b) increase number of radical (a) increase number of radical (b)'),
+    ('quadruple', 'break bond (a,b) increase number of radical (a) increase number of radical (b)'),
+    ('double', 'break bond (a,b) increase number of radical (a) increase number of radical (a) increase number of radical (b) increase number of radical (b)'),
+    ('double', 'break double bond (a,b) increase number of radical (a) increase number of radical (a) increase number of radical (b) increase number of radical (b)'),
+    ('triple', 'decrease bond order (a,b) decrease bond order (a,b) increase number of radical (a) increase number of radical (a) '
+               'increase number of radical (b) increase number of radical (b)'),
+    ('single', 'increase bond order (a,b) decrease bond order (a,b)'),
+    ('single', 'increase bond order (a,b) increase bond order (a,b) decrease number of radical (a) decrease number of radical (a) '
+               'decrease number of radical (b) decrease number of radical (b)'),
+    ('double', 'decrease bond order (a,b) increase bond order (a,b)'),
+    ('single', 'decrease bond order (a,b) increase number of radical (a) increase number of radical (b)'),
+    ('double', 'increase bond order (a,b) decrease bond order (a,b) decrease bond order (a,b) increase number of radical (a) increase number of radical (b)'),
+    ('quadruple', 'modify bond (a,b,triple) increase number of radical (a) increase number of radical (b)'),
+    ('quadruple', 'modify bond (a,b,single) modify number of radical (a, 3) modify number of radical (b, 3)'),
+    ('triple', 'modify bond (a,b,quadruple) decrease number of radical (a) decrease number of radical (b)'),
+    ('triple', 'modify bond (a,b,single) modify number of radical (a, 2) modify number of radical (b, 2)'),
+    ('aromatic', 'modify bond (a,b,single)'), ('any', 'modify bond (a,b,single)'), ('quadruple', 'decrease bond order (a,b) increase number of radical (a) increase number of radical (b)'),
+    ('quadruple', 'break quadruple bond (a,b) modify number of radical (a, 4) modify number of radical (b, 4)')])]
+# atom-type modification with an atom prefix in the new type
+RULES += ['rule m{ reactant r{ C labeled c1} modify atomtype (c1, %s C)}' % p for p in ('nonringatom', 'ringatom', 'aromatic', 'nonaromatic', 'allylic')]
+# numbers at and beyond the interpreter's integer-conversion limit (sys.get_int_max_str_digits() = 4300 digits)
+BIGNUM = ['rule n{ reactant r{ C labeled c1} modify number of radical (c1, %s) }' % ('9' * n) for n in (4300, 4301, 5000)] + \
+         ['rule k{ reactant r{ C labeled c1} constraints{ r.formula is C%s } increase formal charge (c1) decrease formal charge (c1)}' % ('1' * n) for n in (4300, 4301)]
 # several reactants: outside the C16 model (guard) - read by C09 only
 BIMOLECULAR = ['rule two{ reactant r{ C. labeled a} reactant q{ C. labeled b} form bond (a,b) decrease number of radical (a) decrease number of radical (b)}',
           'rule two{ reactant r{ C. labeled a} reactant r{ C. labeled b} form bond (a,b) decrease number of radical (a) decrease number of radical (b)}']
@@ -216,6 +244,8 @@ def rule(rng, balanced=True):
             if bt in ('single', 'double', 'triple'):
                 order = {'single': 1, 'double': 2, 'triple': 3}[bt]
                 decl = '' if bt == 'single' and rng.random() < 0.5 else bt + ' '
+                if bt != 'single' and rng.random() < 0.2:
+                    decl, order = '', rng.choice([1, order])      # untyped break of a multiple bond, balanced as a single or as the declared one
                 left = ['increase number of radical (%s)' % labels[i]] * order
                 if rng.random() < 0.3:
                     # the same electrons written as ONE radical-set edit (its position among the other edits must not matter)
